@@ -6,6 +6,7 @@ package main
 import (
 	"fmt"
 	"go/token"
+	"go/types"
 	"strings"
 
 	"golang.org/x/tools/go/ssa"
@@ -397,11 +398,49 @@ func ruleL17(p *Prog, r *Report) {
 				}
 			}
 			if nm == "Merge" {
+				// the merged-away slab leaves the level: before the slice is used again (stored, handed to the next
+				// level, next loop iteration) it is resliced to one element less
+				n++
+				var escape ssa.Instruction
+				ab := in.Block()
+				reachFrom(f, in, nil, func(y ssa.Instruction) bool {
+					if escape != nil {
+						return true
+					}
+					if sl, ok := y.(*ssa.Slice); ok && sl.High != nil {
+						if bo, ok := canonConv(sl.High).(*ssa.BinOp); ok && bo.Op == token.SUB {
+							if k, ok := constInt(bo.Y); ok && k == 1 {
+								if _, isSlabs := sl.Type().Underlying().(*types.Slice); isSlabs && isSlabT(sl.Type().Underlying().(*types.Slice).Elem()) {
+									return true
+								}
+							}
+						}
+					}
+					if _, ok := y.(*ssa.Return); ok {
+						if c, _ := classifyReturn(y.(*ssa.Return)); c != retError {
+							escape = y
+						}
+						return true
+					}
+					if cc, ok := y.(ssa.CallInstruction); ok {
+						nm2 := calleeName(cc)
+						if nm2 == "storeSlab" || nm2 == "nextLevelArraySlabs" || nm2 == "nextLevelMapSlabs" {
+							escape = y
+							return true
+						}
+					}
+					if y.Block() != ab && y.Block().Dominates(ab) && len(y.Block().Preds) > 1 {
+						escape = y
+						return true
+					}
+					return false
+				})
+				r.Decide(escape == nil, R, "merged-slab-dropped:"+p.Name(f), p.InstrPos(in), "after the tail merge the emptied last slab is dropped from the level before the level is used again", "after the tail merge the emptied last slab stays in the level: it is stored and referenced by the next level although its elements were moved to its left sibling")
 				r.Decide(good && under, R, "tail-merge-only-if-no-lender:"+p.Name(f), p.InstrPos(in), "the underfull last slab is merged only where its left sibling cannot lend", "the last slab of a level can be merged although its sibling could lend (or without being underfull): the merged slab may exceed the maximum size")
 			} else {
 				r.Decide(good && under, R, "tail-borrow-only-if-lender:"+p.Name(f), p.InstrPos(in), "the underfull last slab borrows only where its left sibling can lend", "the last slab of a level borrows from a sibling that cannot lend (or without being underfull): a slab may drop below the minimum size")
 			}
 		})
 	}
-	r.Floor(R, "batch-builder level decisions", 6, n)
+	r.Floor(R, "batch-builder level decisions", 8, n)
 }
